@@ -67,7 +67,8 @@ def decorated(sh, salt, sid):
     n = len(model.leaves(sh))
     edges = ['HD', 'NK', 'SB', 'OA']
     labels = ['S', 'NP', 'VP', 'PP', 'AP']
-    words = ['a', 'b,', '&c', '<d>', 'e"', "f'", 'gä', 'h#', '#', 'Donaudampfschifffahrtsgesellschaft', '#1']
+    words = ['a', 'b,', '&c', '<d>', 'e"', "f'", 'gä', 'h#', '#', 'Donaudampfschifffahrtsgesellschaft', '#1',
+             '&amp;', 'cafe\u0301', '\u212b', '%', '&#8217;']
     root = model.decorate(sh, lambda p, s: labels[(sum(p) + len(p) + salt) % len(labels)],
                           lambda p, s: edges[(sum(p) + salt) % len(edges)])
     toks = model.mk_tokens(n, words=[words[(salt + i) % len(words)] + str(i) for i in range(n)],
